@@ -3,6 +3,9 @@ package sx
 import (
 	"fmt"
 	"runtime/debug"
+	"strings"
+
+	"golang.org/x/tools/go/ssa"
 )
 
 // Thread is an interpreted goroutine running on its own host goroutine; exactly
@@ -17,6 +20,7 @@ type Thread struct {
 	started bool
 	fn      Value
 	args    []Value
+	fnStack []*ssa.Function
 }
 
 func (in *Interp) newThread(fn Value, args []Value) *Thread {
@@ -152,6 +156,31 @@ func (in *Interp) pickNext(except *Thread, kind string) *Thread {
 	if len(en) == 0 {
 		return nil
 	}
+	if nb := in.cfg.FreeSwitchBound; nb > 0 && len(en) > 1 {
+		// bounded exploration of the choices made when the running thread blocks or ends: the default successor is
+		// the next enabled thread in round-robin order; every other choice costs one unit of the bound
+		cur := 0
+		if in.cur != nil {
+			cur = in.cur.id
+		}
+		def := 0
+		for i, t := range en {
+			if t.id > cur {
+				def = i
+				break
+			}
+		}
+		if in.freeSwitches >= nb {
+			return en[def]
+		}
+		k := in.decideN(len(en), "sched:"+kind)
+		// alternative 0 is the default successor, the others follow in order
+		order := append([]*Thread{en[def]}, append(append([]*Thread{}, en[:def]...), en[def+1:]...)...)
+		if k != 0 {
+			in.freeSwitches++
+		}
+		return order[k]
+	}
 	return en[in.decideN(len(en), "sched:"+kind)]
 }
 
@@ -166,6 +195,19 @@ func (in *Interp) schedPoint(kind string) {
 	}
 	if in.m.noPreempt > 0 || (in.m.onlyYield && kind != "yield") {
 		return
+	}
+	if w := in.m.preemptWithin; w != "" && kind != "yield" {
+		// pre-emption is explored only while the running thread executes under a function whose name contains w
+		inside := false
+		for _, f := range me.fnStack {
+			if strings.Contains(f.String(), w) {
+				inside = true
+				break
+			}
+		}
+		if !inside {
+			return
+		}
 	}
 	var others []*Thread
 	for _, t := range in.threads {
@@ -225,7 +267,16 @@ func (in *Interp) drain() {
 		if len(others) == 0 {
 			return
 		}
-		next := others[in.decideN(len(others), "sched:drain")]
+		var next *Thread
+		if nb := in.cfg.FreeSwitchBound; nb > 0 && in.freeSwitches >= nb {
+			next = others[0]
+		} else {
+			k := in.decideN(len(others), "sched:drain")
+			if k != 0 && in.cfg.FreeSwitchBound > 0 {
+				in.freeSwitches++
+			}
+			next = others[k]
+		}
 		// me stays enabled; the other runs until it blocks/ends/preempts back
 		me.blocked = func() bool { return true }
 		me.blockOn = "drain"
